@@ -5,6 +5,10 @@
    X = (shape data steps), steps: (1 names) access (2 names) transpose (3 names) reverse
    (4 ranges) range (5 masks) mask (6 names) rename ; MX = (rows cols data steps), steps:
    (1 r0 rl c0 cl) range (2 rr rc) reverse (3) transpose.
+   (3 17 ty MX MY) PartialEq of Matrix / MatrixView (4 impls, == and !=) and of the tensor API on the
+   same data: (0 b) ; (3 40 ty op form args..) exactly ONE operand form of operator op (1 2 5 11 12 15:
+   form < 16 = 8 lk + 4 rk + 2 lb + rb ; 3 13: form < 8 ; 16 17: form < 4), evaluated by the model's
+   transcription of that very impl (Model/ArithForms.v).
    (3 30 fop args..) is the IEEE-754 oracle: the case (3 fop _ args..) at f64 with elements given
    as bit patterns (0, -0.0, inf, NaN, subnormals ..); the model line is the constant (1).
    The harness evaluates all 16 owned/borrowed x container/view forms (8 for scalars, 12/24 for
@@ -163,6 +167,138 @@ def moperand_for(rows, cols, ty, rng, nsteps):
     return [r, c, values(ty, r * c, rng), steps]
 
 
+def moperand_with(content, ty, rng, nsteps):
+    """A (rows cols data steps) term whose VIEW holds exactly `content` (list of rows), built
+    backwards through `nsteps` adaptors: so two terms with different chains (and different
+    data_layout() answers) can be made equal, or unequal in one chosen position."""
+    cur = [list(r) for r in content]
+    steps = []
+    for _ in range(nsteps):
+        r, c = len(cur), len(cur[0])
+        kind = rng.choice([1, 2, 3, 3, 3])
+        if kind == 1:
+            r0 = rng.choice([0, 0, 1, 2]); c0 = rng.choice([0, 0, 1]); er = rng.choice([0, 1]); ec = rng.choice([0, 1])
+            if (r0 + r + er) * (c0 + c + ec) > 64:
+                continue
+            big = [[value(ty, rng) for _ in range(c0 + c + ec)] for _ in range(r0 + r + er)]
+            for i in range(r):
+                for j in range(c):
+                    big[r0 + i][c0 + j] = cur[i][j]
+            steps.append([1, r0, r, c0, c])
+            cur = big
+        elif kind == 2:
+            rr, rc = rng.randrange(2), rng.randrange(2)
+            steps.append([2, rr, rc])
+            if rr:
+                cur = cur[::-1]
+            if rc:
+                cur = [row[::-1] for row in cur]
+        else:
+            steps.append([3])
+            cur = [[cur[i][j] for i in range(r)] for j in range(c)]
+    steps.reverse()
+    return [len(cur), len(cur[0]), [x for row in cur for x in row], steps]
+
+
+def distinct(ty, v, rng):
+    while True:
+        w = value(ty, rng)
+        if ty == 0:
+            if w[0] * v[1] != v[0] * w[1]:
+                return w
+        elif ty == 1:
+            if (w - v) % P != 0:
+                return w
+        elif (w - v) % 2 ** 64 != 0:
+            return w
+
+
+def equality_cases(rng, count, tys):
+    """(3 17 ..): equal contents through different adaptor chains (transpositions give
+    ColumnMajor sources: the fast path of matrix_equality), contents differing in exactly one
+    position, transposed contents (equal as multisets, unequal as matrices), other sizes"""
+    for n in range(count):
+        ty = rng.choice(tys)
+        r, c = rng.randrange(1, 5), rng.randrange(1, 5)
+        content = [[value(ty, rng) for _ in range(c)] for _ in range(r)]
+        other = [list(row) for row in content]
+        kind = rng.choice(["equal", "equal", "one", "one", "transposed", "size"])
+        if kind == "one":
+            i, j = rng.randrange(r), rng.randrange(c)
+            other[i][j] = distinct(ty, other[i][j], rng)
+        elif kind == "transposed":
+            other = [[content[i][j] for i in range(r)] for j in range(c)]
+        elif kind == "size":
+            if rng.random() < 0.5 and r * c > 1:
+                flat = [x for row in content for x in row]      # same data, other size
+                r2 = rng.choice([d for d in range(1, r * c + 1) if (r * c) % d == 0 and d != r])
+                other = [flat[i * (r * c // r2):(i + 1) * (r * c // r2)] for i in range(r2)]
+            else:
+                other = [row + [value(ty, rng)] for row in content]
+        # both column major (odd number of transpositions on a plain base), mixed, plain
+        sx_, sy_ = rng.choice([(1, 1), (1, 1), (3, 1), (0, 0), (0, 1), (1, 0), (2, 2), (3, 3)])
+        x = moperand_with(content, ty, rng, sx_) if n % 3 else [r, c, [v for row in content for v in row], [[3], [3], [3]][:0]]
+        if n % 3 == 0:
+            # the canonical fast-path pair: both operands `transpose of the transposed data`
+            x = [c, r, [content[i][j] for j in range(c) for i in range(r)], [[3]]]
+            y = [len(other[0]), len(other), [other[i][j] for j in range(len(other[0])) for i in range(len(other))], [[3]]]
+        else:
+            y = moperand_with(other, ty, rng, sy_)
+        yield sx([3, 17, ty, x, y])
+
+
+def one_form_cases(rng, count, tys):
+    """(3 40 ty op form ..): every form number of every operator, view operands from adaptor chains"""
+    n = 0
+    while n < count:
+        ty = rng.choice(tys)
+        op = rng.choice([1, 2, 5, 3, 11, 12, 15, 13, 16, 17])
+        if op in (1, 2):
+            shape = rand_shape(rng.choice([1, 2, 2, 3]), rng)
+            other = shape if rng.random() < 0.9 else mutate_shape(shape, rng)
+            args = [operand_for(shape, ty, rng, rng.choice([0, 1, 2])), operand_for(other, ty, rng, rng.choice([0, 1, 2]))]
+            forms = 16
+        elif op == 5:
+            m, k2, k = (rng.randrange(1, 4) for _ in range(3))
+            n2 = k2 if rng.random() < 0.9 else k2 + 1
+            a, b = rng.sample(NAMES, 2)
+            d = rng.choice([x for x in NAMES if x != a]) if rng.random() < 0.93 else a
+            c = rng.choice([x for x in NAMES if x != d])
+            args = [operand_for([[a, m], [b, k2]], ty, rng, rng.choice([0, 1, 2])),
+                    operand_for([[c, n2], [d, k]], ty, rng, rng.choice([0, 1, 2]))]
+            forms = 16
+        elif op == 3:
+            k = rng.randrange(4)
+            s = nonzero(ty, rng) if (k == 3 and (ty == 2 or rng.random() < 0.8)) else value(ty, rng)
+            args = [operand_for(rand_shape(rng.choice([0, 1, 2, 3]), rng), ty, rng, rng.choice([0, 1, 2])), k, s]
+            forms = 8
+        elif op in (11, 12, 15):
+            r, c = rng.randrange(1, 4), rng.randrange(1, 4)
+            if op == 15:
+                r2, c2 = (c if rng.random() < 0.9 else c + 1), rng.randrange(1, 4)
+            else:
+                r2, c2 = (r, c) if rng.random() < 0.9 else (c + 1, r)
+            args = [moperand_for(r, c, ty, rng, rng.choice([0, 1, 2])), moperand_for(r2, c2, ty, rng, rng.choice([0, 1, 2]))]
+            forms = 16
+        elif op == 13:
+            k = rng.randrange(4)
+            s = nonzero(ty, rng) if (k == 3 and (ty == 2 or rng.random() < 0.8)) else value(ty, rng)
+            args = [moperand_for(rng.randrange(1, 4), rng.randrange(1, 4), ty, rng, rng.choice([0, 1, 2])), k, s]
+            forms = 8
+        elif op == 16:
+            args = [moperand_for(rng.randrange(1, 4), rng.randrange(1, 4), ty, rng, rng.choice([0, 1, 2]))]
+            forms = 4
+        else:
+            line = next(equality_cases(rng, 1, [ty]))
+            # reuse the operands of an equality case
+            from tools.vlib import parse_sx
+            args = parse_sx(line)[3:]
+            forms = 4
+        for form in range(forms):
+            yield sx([3, 40, ty, op, form] + args)
+            n += 1
+
+
 def gen(tier, rng):
     quick = tier == "quick"
     scale = 1 if quick else 8
@@ -281,6 +417,10 @@ def gen(tier, rng):
             k = rng.randrange(4)
             s = nonzero(ty, rng) if (k == 3 and (ty == 2 or rng.random() < 0.8)) else value(ty, rng)
             yield sx([3, 13, ty, x, k, s])
+    # ---- 10. (session 3) PartialEq, and every operand form on its own; kept LAST so that the
+    #          random stream of the sections above is the one the earlier seeds were caught with
+    yield from equality_cases(rng, 1500 * scale, tys)
+    yield from one_form_cases(rng, 6000 * scale, tys)
 
 
 # ------------------------------------------------------------------ large inputs, floats
@@ -396,9 +536,11 @@ def float_cases(rng, count):
 
 
 def nontrivial(case, model_out):
-    """a rejected operand pair (panic) or a computed result with at least two elements / a
-    scalar product"""
-    if model_out.startswith("(2)") or case.startswith("(3 30 "):
+    """a rejected operand pair (panic), an equality verdict, or a computed result with at least two
+    elements / a scalar product"""
+    if model_out.startswith("(2)") or case.startswith("(3 30 ") or case.startswith("(3 17 "):
+        return True
+    if case.startswith("(3 40 ") and case.split(" ")[3] == "17":
         return True
     return model_out.startswith("(0") and (case.startswith("(3 4 ") or model_out.count(" ") >= 5)
 
